@@ -14,6 +14,10 @@ CONSTANTS
   UseCalls = FALSE
   UseSubs = FALSE
   GenMode = TRUE
+  StartConnected = FALSE
+  Grid = 0
+  TrackKA = FALSE
+  SubKinds = {"A"}
 SPECIFICATION MCSpec
 CONSTRAINT Horizon
 CHECK_DEADLOCK FALSE
